@@ -213,6 +213,14 @@ def _registrations_released(ctx, rep):
 
 
 def check(ctx, rep):
+    # LSET / RSET on a variable that still points at a program literal work on a copy in string space; the statement stores the
+    # result back into the variable, which makes that copy permanent -- otherwise it is freed as a temporary at the next expression
+    for meth in ('lset_', 'rset_'):
+        fn = ctx.fn(M + ':DataSegment.' + meth)
+        ls = [c for c in own_nodes(fn) if isinstance(c, ast.Call) and isinstance(c.func, ast.Attribute) and c.func.attr == 'lset' and norm(c.func.value) == 'v']
+        stored = [c for c in own_nodes(fn) if isinstance(c, ast.Call) and norm(c.func) == 'self.set_variable' and any(any(x is l for x in ast.walk(a)) for a in c.args for l in ls)]
+        rep.ob('roots.justified-copy-stored-back', 'DataSegment.%s stores the result of v.lset(...) back with set_variable' % meth, len(ls) == 1 and len(stored) == 1,
+               'the copy LSET/RSET made of a program literal stays a temporary: the variable points at freed string space after the next expression', ctx.where(fn))
     _values_read_after_a_possible_collection(ctx, rep)
     _registrations_released(ctx, rep)
     _temporaries_boundary(ctx, rep)
@@ -459,6 +467,9 @@ def variants(ctx):
         return t
 
     return [
+        Va('lset-result-not-stored-back', 'break', M,
+           in_fn('DataSegment.lset_', lambda fn: mu.replace_expr(fn, mu.text_is('self.set_variable(name, index, v.lset(s, justify_right=False))'), 'v.lset(s, justify_right=False)')),
+           expect='roots.justified-copy-stored-back'),
         Va('boundary-on-the-sentinel', 'break', ST,
            in_fn('StringSpace.collect_garbage', lambda fn: mu.replace_expr(fn, lambda n: isinstance(n, ast.BinOp) and norm(n).startswith('-1 + struct.unpack_from'), "struct.unpack_from('<H', last_perm_view.tobytes(), 1)[0]")), expect='temporaries.boundary-below'),
         Va('mid-value-not-a-root', 'break', M, in_fn('DataSegment.mid_', _unroot_mid), expect='roots.argument-read-after-collection'),
